@@ -330,7 +330,8 @@ Record rf_out := mkRF {
 Definition oid_header : N := 0.
 Definition oid_frame : N := 1.
 
-Definition read_from (f : fhdr) (input : bytes) : rf_out :=
+(* readFrom with the frame pools' hand-off (AcquireFrame) as a parameter *)
+Definition read_from_gen (acq : Z -> result body) (f : fhdr) (input : bytes) : rf_out :=
   (* header, err := br.Peek(9): a short read leaves the reader where it was *)
   if len input <? c_DefaultFrameSize then mkRF (Err E_eof) f 0 0 []
   else
@@ -346,7 +347,7 @@ Definition read_from (f : fhdr) (input : bytes) : rf_out :=
         (* br.Discard(f.length): skips what is there, its error is dropped *)
         mkRF (Err E_unknown_type) f1 (9 + N.min length (len rest)) 0 []
       else
-        match acquire_frame kind with
+        match acq kind with
         | Panic w => mkRF (Panic w) f1 9 0 []
         | Err e => mkRF (Err e) f1 9 0 []
         | Ok bd =>
@@ -374,6 +375,9 @@ Definition read_from (f : fhdr) (input : bytes) : rf_out :=
         end
     end.
 
+(* with every pool empty: AcquireFrame hands out a new, Reset object *)
+Definition read_from (f : fhdr) (input : bytes) : rf_out := read_from_gen acquire_frame f input.
+
 Record read_out := mkRO {
   ro_res : result fhdr;      (* the *FrameHeader handed to the caller, or the error *)
   ro_used : N;
@@ -382,8 +386,7 @@ Record read_out := mkRO {
 
 (* fr := AcquireFrameHeader(); fr.maxLen = max; _, err := fr.ReadFrom(br);
    if err != nil { if fr.Body() != nil { ReleaseFrameHeader(fr) } else { frameHeaderPool.Put(fr) }; fr = nil } *)
-Definition read_frame_with_size (max : N) (input : bytes) : read_out :=
-  let r := read_from (set_maxlen acquire_header max) input in
+Definition finish_read (r : rf_out) : read_out :=
   let evs := Acq PFrameHeader oid_header :: rf_events r in
   match rf_err r with
   | Ok _ => mkRO (Ok (rf_f r)) (rf_used r) (rf_alloc r) evs
@@ -396,7 +399,61 @@ Definition read_frame_with_size (max : N) (input : bytes) : read_out :=
   | Panic w => mkRO (Panic w) (rf_used r) (rf_alloc r) evs
   end.
 
-Definition read_frame (input : bytes) : read_out := read_frame_with_size c_defaultMaxLen input.
+Definition read_frame_with_size (max : N) (input : bytes) : read_out :=
+  finish_read (read_from (set_maxlen acquire_header max) input).
+
+(* ReadFrameFrom: the same without the fr.maxLen = max line *)
+Definition read_frame (input : bytes) : read_out := finish_read (read_from acquire_header input).
+
+(* ---- the pools: what the objects held before ---- *)
+
+(* FrameHeader.Reset: kind, flags, stream, length zeroed, maxLen = defaultMaxLen, fr = nil,
+   payload = payload[:0] *)
+Definition header_reset (f : fhdr) : fhdr :=
+  mkFH 0 0%Z 0 0 c_defaultMaxLen (takeN 0 (fh_payload f)) None.
+
+(* Reset of each frame type. Ping.Reset clears ack only: data keeps what it held. *)
+Definition body_reset (b : body) : body :=
+  match b with
+  | BData _ _ d => BData false false (takeN 0 d)
+  | BHeaders _ _ _ _ _ _ raw => BHeaders false 0 0 false false false (takeN 0 raw)
+  | BPriority _ _ => BPriority 0 0
+  | BRstStream _ => BRstStream 0
+  | BSettings st =>
+      BSettings (mkSt false (takeN 0 (st_raw st)) c_defaultHeaderTableSize false c_defaultConcurrentStreams
+                      c_defaultWindowSize c_defaultDataFrameSize 0 false 0)
+  | BPushPromise _ _ _ hdr => BPushPromise false false 0 (takeN 0 hdr)
+  | BPing _ data => BPing false data
+  | BGoAway _ _ d => BGoAway 0 0 (takeN 0 d)
+  | BWindowUpdate _ => BWindowUpdate 0%Z
+  | BContinuation _ raw => BContinuation false (takeN 0 raw)
+  end.
+
+(* What the pools will hand out next: a used FrameHeader (None: the pool is empty and New
+   makes &FrameHeader{}), and per frame type a used body (None: New). Any state a caller
+   can have left in them. *)
+Record pools := mkPools { p_header : option fhdr; p_frame : Z -> option body }.
+
+Definition new_header : fhdr := mkFH 0 0%Z 0 0 0 [] None.   (* &FrameHeader{} *)
+
+(* AcquireFrameHeader: Get, Reset *)
+Definition acquire_header_from (p : option fhdr) : fhdr :=
+  header_reset (match p with Some f => f | None => new_header end).
+
+(* AcquireFrame(ftype): framePools[ftype].Get(), Reset *)
+Definition acquire_frame_from (pf : Z -> option body) (kind : Z) : result body :=
+  if (kind <? 0)%Z || (Z.of_N c_FrameContinuation <? kind)%Z then Panic P_index
+  else match pf kind with
+       | Some prev => Ok (body_reset prev)
+       | None => acquire_frame kind
+       end.
+
+(* ReadFrameFromWithSize(br, max) (lim = Some max) / ReadFrameFrom(br) (lim = None) on pools
+   in state ps *)
+Definition read_frame_pooled (ps : pools) (lim : option N) (input : bytes) : read_out :=
+  let f0 := acquire_header_from (p_header ps) in
+  let f1 := match lim with Some m => set_maxlen f0 m | None => f0 end in
+  finish_read (read_from_gen (acquire_frame_from (p_frame ps)) f1 input).
 
 (* the objects a call hands to its caller *)
 Definition handed (r : read_out) : list obj :=
@@ -462,3 +519,8 @@ Definition write_to (f : fhdr) (padn : N) : result (bytes * fhdr) :=
 (* the frame a caller builds: AcquireFrameHeader, SetFlags, SetStream, SetBody *)
 Definition build (flags stream : N) (bd : body) : fhdr :=
   set_body (set_stream (set_flags acquire_header flags) stream) bd.
+
+(* the same on a FrameHeader in any state: one that has been read into, or written from,
+   before (its payload buffer, length, kind, flags, stream, body whatever they were) *)
+Definition build_on (prev : fhdr) (flags stream : N) (bd : body) : fhdr :=
+  set_body (set_stream (set_flags prev flags) stream) bd.
